@@ -15,6 +15,7 @@ import JubakoModel.Lemmas.Layouts
 import JubakoModel.Lemmas.ContentFile
 import JubakoModel.Lemmas.DirFileG
 import JubakoModel.Lemmas.VerifiesB
+import JubakoModel.Lemmas.Funcs
 
 namespace Jubako
 
@@ -229,5 +230,17 @@ theorem c14_container_pack_file_layout (uuid freeData : Bytes) (packs : List (By
         (locTable (layoutLocs 0 packs) ++ (block CheckInfo.none.encode ++
           (block (cpwHeader uuid packs).encode).reverse)))) :=
   containerPackWrite_eq uuid freeData packs
+
+/-! ### Tie to the source: bit packing of sized offsets and content infos -/
+
+/-- **`SizedOffset` and `ContentInfo` are packed and unpacked by the model exactly as by the bodies of
+    their `serialize` / `parse` translated from the Rust source on every run** (shift amounts, masks,
+    which half is which). -/
+theorem c14_bit_packing_follows_source :
+    (∀ offset size, sizedOffsetEncode offset size = leBytes (Generated.sizedOffsetPack offset size % 2 ^ 64) 8) ∧
+    (∀ bs, sizedOffsetDecode bs = ((Generated.sizedOffsetUnpack (leNat bs)).2, (Generated.sizedOffsetUnpack (leNat bs)).1)) ∧
+    (∀ cluster blob, contentInfoEncode cluster blob = leBytes (Generated.contentInfoPack cluster blob % 2 ^ 32) 4) ∧
+    (∀ bs, contentInfoDecode bs = Generated.contentInfoUnpack (leNat bs)) :=
+  ⟨gen_sizedOffsetPack, gen_sizedOffsetUnpack, gen_contentInfoPack, gen_contentInfoUnpack⟩
 
 end Jubako
